@@ -32,8 +32,20 @@ REPO = Path("/repo")
 
 
 def sh(cmd, cwd=None, env=None, timeout=3600):
-    p = subprocess.run(cmd, cwd=cwd, env=env, capture_output=True, text=True, timeout=timeout)
-    return p.returncode, p.stdout + p.stderr
+    """Run in its own process group; on timeout the whole group (pool workers included) is killed. rc = -9 then."""
+    import signal
+
+    p = subprocess.Popen(cmd, cwd=cwd, env=env, stdout=subprocess.PIPE, stderr=subprocess.STDOUT, text=True, start_new_session=True)
+    try:
+        out, _ = p.communicate(timeout=timeout)
+        return p.returncode, out
+    except subprocess.TimeoutExpired:
+        try:
+            os.killpg(p.pid, signal.SIGKILL)
+        except ProcessLookupError:
+            pass
+        out, _ = p.communicate()
+        return -9, (out or "") + "\nTIMEOUT"
 
 
 def base_commit() -> str:
@@ -217,6 +229,7 @@ def main() -> int:
     ap.add_argument("--out", default="/dev/shm/mutate")
     ap.add_argument("--suite", action="store_true")
     ap.add_argument("--check-workers", type=int, default=8)
+    ap.add_argument("--timeout", type=int, default=420, help="seconds per check run; a mutant that hangs the check counts as killed(timeout)")
     ap.add_argument("--offset", type=int, default=0, help="rotate the evenly spaced selection (to draw a different sample)")
     args = ap.parse_args()
     out = Path(args.out)
@@ -283,7 +296,9 @@ def main() -> int:
                 env["VF_TREE_HASH"] = f"mutate-worker-{w}"  # kernels untouched: the numba cache of this worktree stays valid
             else:
                 env["VF_TREE_HASH"] = f"mutate-worker-{w}-k"
-            rc, outp = sh([str(VERIF / "check"), pid, "--tier", "quick", "--workers", str(args.check_workers)], cwd=str(VERIF), env=env, timeout=3000)
+            rc, outp = sh([str(VERIF / "check"), pid, "--tier", "quick", "--workers", str(args.check_workers)], cwd=str(VERIF), env=env, timeout=args.timeout)
+            if rc == -9:
+                return {"prop": pid, "file": f, "func": q, "mutation": desc, "kind": kind, "result": "killed(timeout)"}
             if rc == 1 and f"VIOLATION property={pid}" in outp:
                 res = "killed"
             elif rc == 0:
